@@ -26,6 +26,8 @@ class XTfy:
 
     def tagify(self):
         H = self._H
+        if self.mode == "raise":
+            raise ValueError("this component cannot be expanded")
         if self.mode == "list":
             return self.content.tagify()
         if self.mode == "tag":
@@ -304,6 +306,8 @@ def run_history(tree, hist, H, seed):
                         for d in own + r.render()["dependencies"]:
                             d.as_html_tags(lib_prefix="L"); d.as_dict(lib_prefix="L", include_version=False); d.source_path_map()
                             d.serialize_to_script_json(indent=2); str(d); repr(d)
+                            # (what a caller does to the RETURNED values afterwards is outside the statement: on the unchanged
+                            #  code as_dict()["meta"] is the dependency's own list - DESIGN.md 9.3)
                     elif op == "views":
                         a, b, c, d = str(r), repr(r), r._repr_html_(), r.render()["html"]
                         ev["eq"] = bool(a == b == c == d)
@@ -506,6 +510,32 @@ def scenario_record(g, H):
         want = H.HTMLDocument(H.tags.div("c", expanded, dep("other"))).render()
         return obs("HTMLDocumentRenderExpandsTheSameWay",
                    got["html"] == want["html"] and [d.name for d in got["dependencies"]] == [d.name for d in want["dependencies"]])
+    if name in ("append_after_tagify", "doc_rerender_after_growth"):
+        class Badge:
+            def __init__(self, label, selfrendering):
+                self.label = label
+                if selfrendering:
+                    self._repr_html_ = lambda: "<i>unexpanded " + label + "</i>"
+
+            def tagify(self):
+                return H.TagList(H.tags.b(self.label), dep("badge-" + self.label))
+        badge = Badge("w%d" % g.get("n", 0), g.get("n", 0) % 2 == 0)
+        want_html, want_dep = "<b>" + badge.label + "</b>", "badge-" + badge.label
+        tree = H.tags.div(H.tags.p("a", H.tags.span("deep")), H.tags.span("b"), dep("already"))
+        if name == "append_after_tagify":
+            # a tagified tree is an ordinary tree: what is added to it afterwards (at any depth) is expanded when asked
+            t = tree.tagify()
+            target = t.children[0] if g.get("n", 0) % 3 else t.children[0].children[1]
+            target.append(badge)
+            outs = [t.render(), H.TagList(t).render(), H.HTMLDocument(t).render(), t.tagify().render()]
+        else:
+            # a document that was rendered before the tree it holds grew (through the tree's own methods)
+            doc = H.HTMLDocument(tree, lang="en")
+            doc.render()
+            (tree.children[0] if g.get("n", 0) % 3 else tree).append(badge)
+            outs = [doc.render(), doc.render(lib_prefix="x")]
+        ok = all(want_html in o["html"] and "unexpanded" not in o["html"] and want_dep in [d.name for d in o["dependencies"]] for o in outs)
+        return obs("RenderProducesWhatTheExpandedTreeProduces" if name == "append_after_tagify" else "HTMLDocumentRenderExpandsTheSameWay", ok)
     if name == "per_instance":
         # whether an object is tagifiable is a property of THAT object: an instance that got its tagify() per instance
         # expands, whatever other instances of its class did before in this process
@@ -653,6 +683,15 @@ class C08(_Base):
     def gens_random(self, tier, rnd):
         gens = []
         acts = ["Tagify", "Tagify", "CopyTag", "ReadOnly", "ReadOnly", "ReadOnly", "ReadOnly", "MutAppend", "MutAttr", "MutName", "MutDrop"]
+        # a component whose tagify() raises: every read-only operation fails the same way every time (a failure leaves
+        # nothing behind that makes the same objects behave differently afterwards)
+        for n in range(12 if tier == "quick" else 120):
+            bad = {"f": "T", "name": "div", "ws": True, "attrs": [], "kids": [
+                {"f": "S", "v": "a"}, {"f": "T", "name": "p", "ws": True, "attrs": [], "kids": [{"f": "F", "mode": "raise", "kids": []}] * (1 + n % 2)},
+                {"f": "D", "name": "d@1.0"}]}
+            ops = ["render", "tagify_ro", "render", "str", "docrender", "tagify_ro", "get_dependencies", "render", "views", "repr"]
+            gens.append({"kind": "hist", "tree": bad, "seed": n, "hist": [
+                {"act": "ReadOnly", "i": 1, "op": ops[(n + j * 3) % len(ops)], "kind": "", "ord": 0} for j in range(8)]})
         for n in range(300 if tier == "quick" else 6000):
             t = rand_tree(rnd, rnd.choice([6, 15, 40]))
             if rnd.random() < 0.25:
@@ -736,8 +775,18 @@ class C09(_Base):
             if rnd.random() < 0.3:
                 t = {"f": "L", "kids": t["kids"]}
             if n < 12:
+                # a component whose tagify() raises: every read-only operation fails the same way, every time, and the
+                # failure leaves nothing behind (the same objects behave like fresh ones afterwards)
+                bad = {"f": "T", "name": "div", "ws": True, "attrs": [], "kids": [
+                    {"f": "S", "v": "a"}, {"f": "T", "name": "p", "ws": True, "attrs": [], "kids": [{"f": "F", "mode": "raise", "kids": []}] * (1 + n % 2)},
+                    {"f": "D", "name": "d@1.0"}]}
+                ops = ["render", "tagify_ro", "render", "str", "docrender", "tagify_ro", "get_dependencies", "render", "views"]
+                gens.append({"kind": "hist", "tree": bad, "seed": n, "hist": [
+                    {"act": "ReadOnly", "i": 1, "op": ops[(n + j) % len(ops)], "kind": "", "ord": 0} for j in range(7)]})
                 gens.append({"kind": "scenario", "name": "head_content", "n": n % 3, "v": "v%d" % n})
                 gens.append({"kind": "scenario", "name": "per_instance", "first_tfy": n % 2 == 0, "n": n})
+                gens.append({"kind": "scenario", "name": "append_after_tagify", "n": n})
+                gens.append({"kind": "scenario", "name": "doc_rerender_after_growth", "n": n})
             gens.append({"kind": "expand", "tree": t})
             gens.append({"kind": "hist", "tree": t, "seed": n, "hist": [
                 {"act": "ReadOnly", "i": 1, "op": "rawstring", "kind": "", "ord": 0},
